@@ -58,6 +58,8 @@ def run(check: Check):
     check.ob('R-TYPE', ci, f'{ci.name}: {sorted(set(map(str, zc + ec)))}', ok,
              'zero() is the identity of the same statistic type that evaluate_example() produces')
   check.floor('R-TYPE', 'metrics', n, 13)
+  static_metric_fields(check)
+  _per_domain_zero(check)
   # division guards
   dv = DivAnalysis(repo)
   for modname, q in ((MOD, 'MeanStat.result'), ('fedjax.core.util', 'safe_div')):
@@ -138,6 +140,16 @@ def _direct_ctor(check: Check, stat_names):
     for c, cls, how in mr.stat_ctor_calls(repo, ff, stat_names):
       if how == 'new':
         n_new += 1
+        # the accumulated value is a number: a boolean accumulator makes merge (`+`) a logical OR and reduce (`sum`) a count of at most 1
+        if c.args:
+          for v in ff.expand(c.args[0]):
+            boolean = isinstance(v, (ast.Compare, ast.BoolOp)) or (isinstance(v, ast.Call) and (ff.ext(v.func) or '') in (
+                'jax.numpy.any', 'jax.numpy.all', 'jax.numpy.logical_and', 'jax.numpy.logical_or', 'jax.numpy.logical_not', 'jax.numpy.isin',
+                'jax.numpy.isfinite', 'jax.numpy.isnan', 'jax.numpy.equal', 'jax.numpy.not_equal', 'jax.numpy.greater', 'jax.numpy.less'))
+            if boolean:
+              check.ob('R-STAT.dtype', fi, txt(c)[:80], False,
+                       f'`{txt(v)[:50]}` is boolean: statistics of booleans merge by OR instead of adding up; cast it (.astype(jnp.float32)) '
+                       'before it becomes the accumulator', node=c, exact=True)
       elif fi.name != 'new':
         bad.append((fi, c))
   for fi, c in bad:
@@ -364,3 +376,57 @@ def _safe_div_shape(check: Check, fi: FuncInfo, ff: FuncFlow):
       ok = c_ok and z_ok
   check.ob('R-DIV.safe', fi, 'where(b != 0, a / where(b != 0, b, 1), 0)', ok,
            'safe_div returns exactly 0 where the denominator is 0 and divides by a non-zero stand-in there (no NaN, finite gradient)')
+
+
+def static_metric_fields(check: Check, rule: str = 'R-TYPE.static'):
+  """A Metric is a static (hashed) argument of the jitted evaluate_batch: every configuration field takes part in __eq__ / __hash__.
+  A field declared with compare=False / hash=False makes two differently configured metrics equal, and the second one silently reuses
+  the trace (and the constants) of the first."""
+  repo = check.repo
+  n = 0
+  for ci in mr.metric_classes(repo):
+    for st in ci.node.body:
+      if not isinstance(st, ast.AnnAssign) or not isinstance(st.target, ast.Name):
+        continue
+      n += 1
+      v = st.value
+      bad = None
+      if isinstance(v, ast.Call) and txt(v.func).split('.')[-1] == 'field':
+        for k in v.keywords:
+          if k.arg in ('compare', 'hash') and isinstance(k.value, ast.Constant) and k.value.value is False:
+            bad = f'{k.arg}=False'
+      if bad:
+        check.ob(rule, ci, f'{ci.name}.{st.target.id}: field({bad})', False,
+                 f'`{st.target.id}` is left out of equality / hash: metrics that differ only in it are the same static jit argument, so '
+                 'evaluate_batch reuses the compiled function of the first one', node=st, exact=True)
+    for d in ci.node.decorator_list:
+      if isinstance(d, ast.Call):
+        for k in d.keywords:
+          if (k.arg == 'eq' and isinstance(k.value, ast.Constant) and k.value.value is False) or (
+              k.arg == 'unsafe_hash' and isinstance(k.value, ast.Constant) and k.value.value is True):
+            check.ob(rule, ci, f'@{txt(d)[:50]}', False, 'identity-based equality / hash of a metric defeats the jit cache key', node=d, exact=True)
+  check.ob(rule, ('fedjax/core/metrics.py', '<metric classes>'), f'{n} configuration fields', True,
+           'every field of every metric takes part in equality and hash', nontrivial=False)
+
+
+def _per_domain_zero(check: Check):
+  """The identity of a per-domain statistic has the domain axis: zero() gives base.zero() a leading [num_domains] dimension, so an
+  evaluation over no batches has the shape of every other evaluation."""
+  repo = check.repo
+  ci = next((c for c in mr.metric_classes(repo) if c.name == 'PerDomainMetric'), None)
+  if ci is None or 'zero' not in ci.methods:
+    return
+  z = ci.methods['zero']
+  ff = FuncFlow.of(repo, z)
+  check.analysed(z)
+  mentions = any(isinstance(x, ast.Attribute) and x.attr == 'num_domains' for n in ff.cfg.nodes if n.ast is not None for x in ff.deep_walk(n.ast))
+  shaped = any((ff.ext(c.func) or '') in ('jax.numpy.broadcast_to', 'jax.numpy.zeros', 'jax.numpy.tile', 'jax.numpy.repeat', 'jax.numpy.stack',
+                                          'jax.numpy.full') for _, c in ff.calls()) or any(
+      (ff.ext(c.func) or '') in ('jax.numpy.broadcast_to', 'jax.numpy.zeros', 'jax.numpy.tile', 'jax.numpy.repeat', 'jax.numpy.stack',
+                                 'jax.numpy.full') for g in z.scope.children if g.kind == 'function' for c in ast.walk(g.node) if isinstance(c, ast.Call)
+      for ff in [FuncFlow.of(repo, z.module.funcs_by_node[g.node])])
+  ok = True if (mentions and shaped) else (False if not mentions else None)
+  check.ob('R-TYPE.domains', z, 'zero(): base.zero() with a leading [num_domains] axis', ok,
+           'the identity statistic carries the domain axis (num_domains is used to shape it)' if ok else
+           'zero() never looks at num_domains: the identity has the shape of the base statistic, not [num_domains, ...]')
+
